@@ -89,6 +89,11 @@ def make_fixture(base):
             f.write(text)
     with open(os.path.join(sib, "outmod.py"), "w") as f:
         f.write(OUT_SRC)
+    # generated code excluded with a `//` pattern ("gen//*.py": any number of folders, including none)
+    for rel in ("gen/api.py", "gen/v1/models.py", "gen/v1/internal/tables.py"):
+        os.makedirs(os.path.dirname(os.path.join(root, rel)), exist_ok=True)
+        with open(os.path.join(root, rel), "w") as f:
+            f.write(IG_SRC)
     return root, sib
 
 
@@ -113,6 +118,8 @@ def region(rel):
         return "outside"
     if parts[0] == "proj":
         if len(parts) > 1 and parts[1] in ("ign", ".ropeproject"):
+            return "ignored"
+        if len(parts) > 1 and parts[1] == "gen" and parts[-1].endswith(".py"):
             return "ignored"
         return "project"
     return "outside"
@@ -253,7 +260,7 @@ def run_batch(arg):
             if variant == "moved-into-ignored":
                 with open(os.path.join(root, "ign", "__init__.py"), "w") as f:
                     f.write("")
-            state["project"] = project_mod.Project(root, python_path=[sib], ignored_resources=["ign", ".ropeproject"])
+            state["project"] = project_mod.Project(root, python_path=[sib], ignored_resources=["ign", ".ropeproject", "gen//*.py"])
             if variant == "moved-into-ignored":
                 # a history before the request: the file list is cached, then a module that uses a.func
                 # is moved by rope into the ignored package; later requests must leave it alone
@@ -370,6 +377,84 @@ def run_batch(arg):
         common.rmtree(base)
 
 
+def run_multiproject(arg):
+    """Cross-project refactorings (rope.refactor.multiproject): each project's change set may announce and
+    touch only files of that project.  Two projects with a module at the same relative path."""
+    which = arg
+    common.use_repo()
+    from rope.base import project as project_mod, exceptions
+    from rope.refactor import move, rename, multiproject
+    base = common.scratch("c09mp_")
+    traces = []
+    try:
+        lib = project_mod.Project(os.path.join(base, "lib"), ropefolder=None)
+        app = project_mod.Project(os.path.join(base, "app"), ropefolder=None)
+        for root, rel, text in ((lib, "core.py", "def helper():\n    return 1\n\n\nvalue = helper()\n"),
+                                (lib, "util.py", "# lib utilities\n"),
+                                (app, "util.py", "import core\n\n\ndef run():\n    return core.helper()\n"),
+                                (app, "main.py", "import core\nvalue = core.helper()\n")):
+            with open(os.path.join(root.address, rel), "w") as f:
+                f.write(text)
+        app.prefs.set("python_path", [lib.address])
+        core = lib.get_resource("core.py")
+        off = core.read().index("helper")
+
+        def reg_for(project):
+            def region_of(rel):
+                full = os.path.join(base, rel)
+                return "project" if full.startswith(project.address + os.sep) else "outside"
+            return region_of
+
+        before = snap(base)
+        exc = None
+        try:
+            if which == "move":
+                ref = multiproject.MultiProjectRefactoring(move.create_move, [app])(lib, core, off)
+                pcs = ref.get_all_changes(lib.get_resource("util.py"))
+            else:
+                ref = multiproject.MultiProjectRefactoring(rename.Rename, [app])(lib, core, off)
+                pcs = ref.get_all_changes("assist")
+        except BaseException as e:  # noqa
+            exc = e
+        after_compute = snap(base)
+        if exc is not None:
+            ch = [{"id": k, "region": "project"} for k in sorted(set(before) | set(after_compute))
+                  if before.get(k) != after_compute.get(k)]
+            traces.append({"kind": "multiproject_" + which, "module": "lib/core.py", "offset": off, "token": "name",
+                           "variant": "multiproject",
+                           "events": [{"ev": "refuse", "changed": ch, "exc": type(exc).__name__,
+                                       "err": "rope" if isinstance(exc, exceptions.RopeError) else "internal"}]})
+            return {"traces": traces}
+        first = True
+        for project, changes in pcs:
+            region_of = reg_for(project)
+            announced = [{"id": os.path.normpath(os.path.relpath(r.real_path, base)),
+                          "region": region_of(os.path.relpath(r.real_path, base))}
+                         for r in changes.get_changed_resources()]
+            tr = {"kind": "multiproject_" + which, "module": os.path.basename(project.address), "offset": off,
+                  "token": "name", "variant": "multiproject", "events": []}
+            cch = [{"id": k, "region": region_of(k)} for k in sorted(set(before) | set(after_compute))
+                   if before.get(k) is None or after_compute.get(k) is None or before[k][0] != after_compute[k][0]
+                   or before[k][1] != after_compute[k][1]] if first else []
+            first = False
+            tr["events"].append({"ev": "compute", "changed": cch, "announced": sorted(announced, key=lambda a: a["id"])})
+            pre = snap(base)
+            perr = None
+            try:
+                project.do(changes)
+            except BaseException as e:  # noqa
+                perr = e
+            post = snap(base)
+            ch = [{"id": k, "region": region_of(k)} for k in sorted(set(pre) | set(post))
+                  if pre.get(k) is None or post.get(k) is None or pre[k][0] != post[k][0]]
+            unprev = [{"id": "perform-raised:" + type(perr).__name__, "region": "project"}] if perr else []
+            tr["events"].append({"ev": "perform", "changed": ch, "unpreviewed": unprev})
+            traces.append(tr)
+        return {"traces": traces}
+    finally:
+        common.rmtree(base)
+
+
 def main(tier):
     timer = common.Timer()
     verdict = common.Verdict(PROP)
@@ -412,6 +497,11 @@ def main(tier):
             batches.append(("a.py", kind, offs_a[k:k + 40], "moved-into-ignored"))
     traces = []
     for r in replay.pool_map(run_batch, batches, chunk=1):
+        if "machinery" in r:
+            verdict.machinery_failure(r["machinery"][:800])
+            continue
+        traces.extend(r["traces"])
+    for r in replay.pool_map(run_multiproject, ["move", "rename"], chunk=1):
         if "machinery" in r:
             verdict.machinery_failure(r["machinery"][:800])
             continue
